@@ -8,6 +8,8 @@
 #include "entropy.h"
 #include <gmssl/sm2.h>
 #include <gmssl/sm3.h>
+#include <gmssl/sm4.h>
+#include <gmssl/x509_alg.h>
 #include <gmssl/sm9.h>
 #include <gmssl/oid.h>
 #include <gmssl/asn1.h>
@@ -222,7 +224,116 @@ static void fz_pem(const char *maxs, xb in) {
 }
 static void fz_tagname(const char *t) { const char *s = asn1_tag_name(atoi(t)); printf("r=%d", s ? (int)strlen(s) : -1); }
 
+
+/* ------------------------------------------------------------------ capacity cases
+ * APIs that write into a caller buffer with a declared (maxlen / max count) or implied capacity are
+ * given an exactly sized heap buffer; the expected status is a function of the sizes (checked in run.py),
+ * a write before the check is an ASan report. */
+static size_t rcpt_cert(uint8_t *cert, size_t max, const uint8_t **iss, size_t *il, const uint8_t **ser, size_t *sl) {
+	size_t cl = mk_cert(cert, max, 0, "rcpt", 2, 0, 1);
+	if (!cl || x509_cert_get_issuer_and_serial_number(cert, cl, iss, il, ser, sl) != 1) return 0;
+	return cl;
+}
+static void cap_rcpt(size_t wl, size_t maxlen) {
+	static uint8_t cert[2048], ri[1024]; const uint8_t *iss, *ser; size_t il, sl, rl = 0, ol = 0x5a5a; uint8_t *rp = ri; xb w = xalloc(wl), out = xalloc(maxlen); int r;
+	memset(w.p, 0x6b, wl);
+	if (!rcpt_cert(cert, sizeof cert, &iss, &il, &ser, &sl) || cms_recipient_info_encrypt_to_der(&keys[2], iss, il, ser, sl, w.p, wl, &rp, &rl) != 1) { printf("ERR-BUILD"); xfree(w); xfree(out); return; }
+	{ xb in = xalloc(rl); const uint8_t *p; size_t l = rl; memcpy(in.p, ri, rl); p = in.p;
+	  r = cms_recipient_info_decrypt_from_der(&keys[2], iss, il, ser, sl, out.p, &ol, maxlen, &p, &l);
+	  printf("r=%d", r); if (r == 1) { printf(" len=%zu ok=%d", ol, ol == wl && (!wl || out.p[wl - 1] == 0x6b)); } xfree(in); }
+	xfree(w); xfree(out);
+}
+static void cap_env(size_t wl, int two) {
+	static uint8_t cert[2048], ris[2048], ed[4096]; const uint8_t *iss, *ser; size_t il, sl, rl = 0, el = 0, cl = 0; uint8_t *rp = ris, *ep = ed;
+	uint8_t key[255], iv[16], content[40], enced[64]; size_t encl = 0; SM4_KEY sk; int r, ct = 0x5a5a;
+	memset(key, 0x42, sizeof key); memset(iv, 0x24, 16); memset(content, 0x63, sizeof content);
+	sm4_set_encrypt_key(&sk, key); sm4_cbc_padding_encrypt(&sk, iv, content, sizeof content, enced, &encl);
+	if (!rcpt_cert(cert, sizeof cert, &iss, &il, &ser, &sl)) { printf("ERR-BUILD"); return; }
+	if (two) { uint8_t other[8]; memset(other, 0x77, 8); if (cms_recipient_info_encrypt_to_der(&keys[1], iss, il, other, 8, key, 16, &rp, &rl) != 1) { printf("ERR-BUILD"); return; } }
+	if (cms_recipient_info_encrypt_to_der(&keys[2], iss, il, ser, sl, key, wl, &rp, &rl) != 1
+		|| cms_enveloped_data_to_der(CMS_version_v1, ris, rl, OID_cms_data, OID_sm4_cbc, iv, 16, enced, encl, NULL, 0, NULL, 0, &ep, &el) != 1) { printf("ERR-BUILD"); return; }
+	{ xb in = xalloc(el), out = xalloc(encl); const uint8_t *p, *ri, *s1, *s2; size_t l = el, ril, s1l, s2l; memcpy(in.p, ed, el); p = in.p;
+	  r = cms_enveloped_data_decrypt_from_der(&keys[2], iss, il, ser, sl, &ct, out.p, &cl, &ri, &ril, &s1, &s1l, &s2, &s2l, &p, &l);
+	  printf("r=%d", r); if (r == 1) printf(" len=%zu ok=%d", cl, cl == sizeof content && out.p[0] == 0x63); xfree(in); xfree(out); }
+}
+static void cap_sm2dec(size_t ptlen, size_t cap) {
+	uint8_t pt[255], ct[SM2_MAX_CIPHERTEXT_SIZE]; size_t cl = 0, ol = 0x5a5a; xb out = xalloc(cap); int r; memset(pt, 0x70, sizeof pt);
+	if (sm2_encrypt(&keys[1], pt, ptlen, ct, &cl) != 1) { printf("ERR-BUILD"); xfree(out); return; }
+	{ xb in = xalloc(cl); memcpy(in.p, ct, cl); r = sm2_decrypt(&keys[1], in.p, cl, out.p, &ol); printf("r=%d", r); if (r == 1) printf(" len=%zu", ol); xfree(in); }
+	xfree(out);
+}
+static void cap_sm2upd(const char *which, char *sizes) {
+	char *sv = NULL, *t; int dec = which[0] == 'd'; size_t cur;
+	if (dec) { SM2_DEC_CTX *c = malloc(sizeof *c); sm2_decrypt_init(c); printf("r=");
+		for (t = strtok_r(sizes, ",", &sv); t; t = strtok_r(NULL, ",", &sv)) { size_t n = strtoul(t, NULL, 10); xb in = xalloc(n); memset(in.p, 0x30, n); printf("%d,", sm2_decrypt_update(c, in.p, n)); xfree(in); }
+		cur = c->buf_size; free(c); }
+	else { SM2_ENC_CTX *c = malloc(sizeof *c); sm2_encrypt_init(c); printf("r=");
+		for (t = strtok_r(sizes, ",", &sv); t; t = strtok_r(NULL, ",", &sv)) { size_t n = strtoul(t, NULL, 10); xb in = xalloc(n); memset(in.p, 0x30, n); printf("%d,", sm2_encrypt_update(c, in.p, n)); xfree(in); }
+		cur = c->buf_size; free(c); }
+	printf(" size=%zu", cur);
+}
+static void cap_pem(const char *kind, long delta) {
+	static uint8_t der[8192]; size_t dl = 0, ol = 0x5a5a; char *txt = NULL; size_t tl = 0; FILE *fp = open_memstream(&txt, &tl); int r = -9; size_t maxlen;
+	if (!strcmp(kind, "cert")) { dl = mk_cert(der, sizeof der, 0, "leaf", 1, 0, 1); x509_cert_to_pem(der, dl, fp); }
+	else if (!strcmp(kind, "certs")) { dl = mk_cert(der, sizeof der, 0, "leaf", 1, 0, 1); dl += mk_cert(der + dl, sizeof der - dl, 1, "ROOT", 0, 0, 1); x509_certs_to_pem(der, dl, fp); }
+	else if (!strcmp(kind, "req")) { uint8_t subj[256]; size_t sl; uint8_t *p = der; mk_name(subj, &sl, sizeof subj, "requester");
+		x509_req_sign_to_der(X509_version_v1, subj, sl, &keys[1], subj, 0, OID_sm2sign_with_sm3, &keys[1], SM2_DEFAULT_ID, SM2_DEFAULT_ID_LENGTH, &p, &dl); x509_req_to_pem(der, dl, fp); }
+	else if (!strcmp(kind, "cms")) { static const uint8_t c[] = "capacity"; cms_set_data(der, &dl, c, sizeof c); cms_to_pem(der, dl, fp); }
+	fclose(fp);
+	if (!dl) { printf("ERR-BUILD"); free(txt); return; }
+	maxlen = (long)dl + delta < 0 ? 0 : (size_t)((long)dl + delta);
+	{ xb out = xalloc(maxlen); FILE *in = fmemopen(txt, tl, "r");
+	  if (!strcmp(kind, "cert")) r = x509_cert_from_pem(out.p, &ol, maxlen, in); else if (!strcmp(kind, "certs")) r = x509_certs_from_pem(out.p, &ol, maxlen, in);
+	  else if (!strcmp(kind, "req")) r = x509_req_from_pem(out.p, &ol, maxlen, in);
+	  else r = cms_from_pem(out.p, &ol, maxlen, in);
+	  fclose(in); printf("need=%zu r=%d", dl, r); if (r == 1) printf(" len=%zu", ol); xfree(out); }
+	free(txt);
+}
+static void cap_tlsauth(int n, long delta) {
+	static uint8_t certs[8192], big[4096]; size_t cl = 0, need = 0, ol = 0x5a5a; int i, r;
+	for (i = 0; i < n; i++) { char cn[16]; size_t one; snprintf(cn, sizeof cn, "CA%d", i); one = mk_cert(certs + cl, sizeof certs - cl, 1, cn, 0, 0, 0); if (!one) { printf("ERR-BUILD"); return; } cl += one; }
+	if (tls_authorities_from_certs(big, &need, sizeof big, certs, cl) != 1) { printf("ERR-BUILD"); return; }
+	{ xb in = xalloc(cl), out = xalloc((long)need + delta < 0 ? 0 : (size_t)((long)need + delta)); memcpy(in.p, certs, cl);
+	  r = tls_authorities_from_certs(out.p, &ol, out.n, in.p, cl); printf("need=%zu r=%d", need, r); if (r == 1) printf(" len=%zu", ol); xfree(in); xfree(out); }
+}
+static void cap_tlsexts(int rep, size_t maxlen) {
+	static uint8_t exts[4096]; size_t el = 0, ol = 0; uint8_t *ep = exts; int i, r; int fm[] = { 0 }; int gr[] = { TLS_curve_sm2p256v1 }; int sa[] = { TLS_sig_sm2sig_sm3 };
+	for (i = 0; i < rep && el < sizeof exts - 64; i++) { tls_ec_point_formats_ext_to_bytes(fm, 1, &ep, &el); tls_supported_groups_ext_to_bytes(gr, 1, &ep, &el); tls_signature_algorithms_ext_to_bytes(sa, 1, &ep, &el); }
+	{ xb in = xalloc(el), out = xalloc(maxlen); memcpy(in.p, exts, el); r = tls_process_client_hello_exts(in.p, el, out.p, &ol, maxlen);
+	  printf("r=%d", r); if (r == 1) printf(" len=%zu%s", ol, ol > maxlen ? " OVER-CAPACITY" : ""); xfree(in); xfree(out); }
+}
+static void cap_digalgs(int cnt, size_t max) {
+	uint8_t body[512], set[600]; size_t bl = 0, sl = 0, n = 0x5a5a; uint8_t *bp = body, *sp = set; int i, r; int *algs = malloc(max ? max * sizeof(int) : 1);
+	for (i = 0; i < cnt; i++) x509_digest_algor_to_der(OID_sm3, &bp, &bl);
+	asn1_set_to_der(body, bl, &sp, &sl);
+	{ xb in = xalloc(sl); const uint8_t *p; size_t l = sl; memcpy(in.p, set, sl); p = in.p; r = cms_digest_algors_from_der(algs, &n, max, &p, &l); printf("r=%d", r); if (r == 1) printf(" cnt=%zu", n); xfree(in); }
+	free(algs);
+}
+static void cap_eku(int cnt, size_t max) {
+	uint8_t body[512], seq[600]; size_t bl = 0, sl = 0, n = 0x5a5a; uint8_t *bp = body, *sp = seq; int i, r; int *oids = malloc(max ? max * sizeof(int) : 1);
+	for (i = 0; i < cnt; i++) x509_key_purpose_to_der(OID_kp_server_auth, &bp, &bl);
+	asn1_sequence_to_der(body, bl, &sp, &sl);
+	{ xb in = xalloc(sl); const uint8_t *p; size_t l = sl; memcpy(in.p, seq, sl); p = in.p; r = x509_ext_key_usage_from_der(oids, &n, max, &p, &l); printf("r=%d", r); if (r == 1) printf(" cnt=%zu", n); xfree(in); }
+	free(oids);
+}
+static int handle_cap(size_t nw, char **w) {
+	if (strcmp(w[0], "cap") || nw < 3) return 0;
+	ent_seed(0xCA9, -1);
+	if (!strcmp(w[1], "rcpt") && nw == 4) cap_rcpt(strtoul(w[2], NULL, 10), strtoul(w[3], NULL, 10));
+	else if (!strcmp(w[1], "env") && nw == 4) cap_env(strtoul(w[2], NULL, 10), atoi(w[3]));
+	else if (!strcmp(w[1], "sm2dec") && nw == 4) cap_sm2dec(strtoul(w[2], NULL, 10), strtoul(w[3], NULL, 10));
+	else if (!strcmp(w[1], "sm2upd") && nw == 4) cap_sm2upd(w[2], w[3]);
+	else if (!strcmp(w[1], "pem") && nw == 4) cap_pem(w[2], strtol(w[3], NULL, 10));
+	else if (!strcmp(w[1], "tlsauth") && nw == 4) cap_tlsauth(atoi(w[2]), strtol(w[3], NULL, 10));
+	else if (!strcmp(w[1], "tlsexts") && nw == 4) cap_tlsexts(atoi(w[2]), strtoul(w[3], NULL, 10));
+	else if (!strcmp(w[1], "digalgs") && nw == 4) cap_digalgs(atoi(w[2]), strtoul(w[3], NULL, 10));
+	else if (!strcmp(w[1], "eku") && nw == 4) cap_eku(atoi(w[2]), strtoul(w[3], NULL, 10));
+	else printf("ERR bad-cap");
+	return 1;
+}
+
 static void handle(size_t nw, char **w) {
+	if (handle_cap(nw, w)) return;
 	if (!strcmp(w[0], "mk") && nw == 2) { ent_seed(0xC06, -1); do_mk(w[1]); return; }
 	if (!strcmp(w[0], "fz") && nw == 3 && !strcmp(w[1], "tagname")) { fz_tagname(w[2]); return; }
 	if (!strcmp(w[0], "fz") && nw == 4 && !strcmp(w[1], "pem")) { xb in = xhex(w[3]); fz_pem(w[2], in); xfree(in); return; }
